@@ -130,3 +130,78 @@ def describe(row):
     cm = "; ".join("%s(%s) %s" % (c[0].replace("KSI_", ""), ", ".join(c[1]), {1: "holds", 0: "fails"}.get(c[2], "= %s" % c[2])) for c in row["cmp"]) or "no comparison"
     wh = (" when " + " and ".join(row["when"])) if row["when"] else ""
     return "%s%s -> %s/%s status %s" % (cm, wh, row["verdict"][0], row["verdict"][1], row["verdict"][2])
+
+
+def check_right_links(prog, chk, rule_id):
+    """ExtendedSignatureCalendarChainRightLinksMatch over explicit link lists: OK iff the right links of the signature's chain and of
+    the extender's chain are the same sequence (same count, pairwise equal sibling hashes); otherwise FAIL / CAL-04."""
+    from ksirules.interp import TOP, Interp, Ptr, inline_model, list_overrides
+    from ksirules.model import strip
+    from ksirules.ruletable import succeed_model_named
+    fn = prog.fn(PFX + "ExtendedSignatureCalendarChainRightLinksMatch", "verification_rule.c")
+    ip, rp = fn.params[0]["n"], fn.params[1]["n"]
+    K = prog.const
+    OKC, NA, FAIL = K("KSI_VER_RES_OK"), K("KSI_VER_RES_NA"), K("KSI_VER_RES_FAIL")
+    CAL4 = K("KSI_VER_ERR_CAL_4")
+
+    def scenario(S, E, eq):
+        lists = {"SL": [Ptr("s%d" % k) for k in range(len(S))], "EL": [Ptr("e%d" % k) for k in range(len(E))]}
+        length, element_at = list_overrides(lists)
+        inputs = {ip: Ptr("info"), rp: Ptr("result"), "info->ctx": Ptr("ctx"), "info->signature": Ptr("sig"), "info->tempData": Ptr("td"),
+                  "sig->calendarChain": Ptr("sc"), "td->calendarChain": Ptr("ec"), "sc->hashChain": Ptr("SL"), "ec->hashChain": Ptr("EL")}
+        for k, d in enumerate(S):
+            inputs["s%d->isLeft" % k] = 1 if d == "L" else 0
+            inputs["s%d->imprint" % k] = Ptr("si%d" % k)
+        for k, d in enumerate(E):
+            inputs["e%d->isLeft" % k] = 1 if d == "L" else 0
+            inputs["e%d->imprint" % k] = Ptr("ei%d" % k)
+        unknown = []
+
+        def hequals(I, p, node, args):
+            s = sorted(a.what for a in args if isinstance(a, Ptr))
+            if len(s) == 2 and s[0].startswith("ei") and s[1].startswith("si"):
+                return 1 if (int(s[1][2:]), int(s[0][2:])) in eq else 0
+            unknown.append(s)
+            return 1
+        def getter(field):
+            def g(I, p, node, args):
+                out = strip(node["a"][1])
+                I.write(p, I.canon(p, I.key_of(p, out["e"])), I.read(p, "%s->%s" % (args[0].what, field)) if isinstance(args[0], Ptr) else TOP)
+                return 0
+            return g
+        ov = {"KSI_HashChainLinkList_length": length, "KSI_HashChainLinkList_elementAt": element_at, "KSI_DataHash_equals": hequals,
+              "KSI_HashChainLink_getIsLeft": getter("isLeft"), "KSI_HashChainLink_getImprint": getter("imprint"),
+              "KSI_CalendarHashChain_getHashChain": getter("hashChain")}
+        inl = inline_model(prog, {"getNextLink", "getExtendedCalendarHashChain"}, fallback=succeed_model_named(prog, ov))
+        I = Interp(fn, inputs=inputs, call_model=inl, on_unknown="stop", prog=prog, loop_bound=10)
+        return I.run(), unknown
+
+    table = (
+        ("identical", "RLR", "RLR", {(0, 0), (2, 2)}, "OK"),
+        ("identical-left-links-differ-in-place", "LRR", "RLRL", {(1, 0), (2, 2)}, "OK"),
+        ("no-right-links", "LL", "L", set(), "OK"),
+        ("first-hash-differs", "RR", "RR", {(1, 1)}, "FAIL"),
+        ("last-hash-differs", "RR", "RR", {(0, 0)}, "FAIL"),
+        ("extender-has-extra-right-link-at-end", "RL", "RLR", {(0, 0)}, "FAIL"),
+        ("extender-has-extra-right-link-only", "L", "LR", set(), "FAIL"),
+        ("extender-lacks-last-right-link", "RR", "RL", {(0, 0)}, "FAIL"),
+        ("extender-has-no-links", "R", "", set(), "FAIL"),
+        ("signature-has-no-links", "", "R", set(), "FAIL"),
+        ("both-empty", "", "", set(), "OK"),
+    )
+    for inst, S, E, eq, want in table:
+        paths, unknown = scenario(S, E, eq)
+        chk.paths += len(paths)
+        und = [u for q in paths for u in q.undetermined]
+        if und or len(paths) != 1:
+            raise AnalysisBroken("RightLinksMatch: evaluation not determined for %s: %s" % (inst, und[:1]))
+        q = paths[0]
+        rc = [s[2] for s in q.stores("result->resultCode")]
+        ec = [s[2] for s in q.stores("result->errorCode")]
+        got = (rc[-1] if rc else None, ec[-1] if ec else None, q.ret)
+        exp = (OKC, K("KSI_VER_ERR_NONE"), 0) if want == "OK" else (FAIL, CAL4, 0)
+        names = {OKC: "OK", NA: "NA", FAIL: "FAIL"}
+        chk.ob(rule_id, "RightLinksMatch[%s]" % inst, got == exp and not unknown,
+               "signature chain %s vs extender chain %s (equal sibling pairs %s): expected %s, source gives (%s, error code %s, status %s)%s"
+               % (S or "-", E or "-", sorted(eq), "OK" if want == "OK" else "FAIL/CAL-04", names.get(got[0], got[0]), got[1], got[2],
+                  "; unexpected comparison operands %s" % unknown if unknown else ""), loc=fn.loc(), fn=fn)
